@@ -459,7 +459,7 @@ func rulePoolPairing(c *Ctx) {
 						return true
 					}
 					f := callee(info, call)
-					if isPoolPut(f) && len(call.Args) == 1 && mentionsState(call.Args[0]) {
+					if c.poolReturner(f).is && len(call.Args) == 1 && mentionsState(call.Args[0]) {
 						hit = true
 					}
 					if f != nil && f.Name() == "Close" {
@@ -526,13 +526,13 @@ func rulePoolPairing(c *Ctx) {
 			// registered after it (deferred calls run in reverse order)
 			putDefers := fg.Find(func(x ast.Node) bool {
 				d, ok := x.(*ast.DeferStmt)
-				return ok && isPoolPut(callee(info, d.Call)) && len(d.Call.Args) == 1 && mentionsState(d.Call.Args[0])
+				return ok && c.poolReturner(callee(info, d.Call)).is && len(d.Call.Args) == 1 && mentionsState(d.Call.Args[0])
 			})
 			lateUse := false
 			for _, pd := range putDefers {
 				for _, od := range fg.Find(func(x ast.Node) bool {
 					d, ok := x.(*ast.DeferStmt)
-					return ok && !isPoolPut(callee(info, d.Call)) && mentionsState(d)
+					return ok && !c.poolReturner(callee(info, d.Call)).is && mentionsState(d)
 				}) {
 					if !fg.Dominates(pd, od) {
 						lateUse = true
